@@ -226,7 +226,14 @@ def run_trace(item):
     cssutils.ser.prefs.keepEmptyRules = True
     w = World()
     tr = {"id": item["id"], "init": w.project(), "steps": []}
-    for a in item["actions"]:
+    actions = list(item["actions"])
+    if item.get("reparse") and actions:
+        # variant: before the last action the sheet is assigned its own content again, so that every rule object is one that
+        # was parsed while attached (the abstract state is the same; where an object comes from must not matter)
+        actions.insert(len(actions) - 1, {"op": "settext", "rules": "#current"})
+    for a in actions:
+        if a.get("rules") == "#current":
+            a = {"op": "settext", "rules": [abstract_rule(r) for r in w.sheet.cssRules]}
         out, ret = w.apply(a)
         tr["steps"].append({"a": a, "out": out, "post": w.project()})
     return tr
